@@ -82,6 +82,14 @@ func PurgeBuildReverseIndex(stores context2.Stores, opts ...PurgeOption) (*Purge
 		zap.Stringer("blob_store", blob),
 	)
 
+	if !options.resume && options.indexStart == 0 {
+		// a new index replaces the previous one: chunks left over by a longer previous index
+		// would otherwise be merged into the new one, with their older index time.
+		if err = PurgeDropReverseIndex(stores, opts...); err != nil {
+			return nil, err
+		}
+	}
+
 	if options.resume {
 		// reload existing index files into a fresh local KV store
 		lastIndex, numKeys, ts, erp := preloadIndexFiles(ctx, stores, db, logger, options)
